@@ -1,4 +1,5 @@
 //! Conformance harness of the fclones verification machinery (built with --cfg fclones_verif).
+mod glob;
 mod sem;
 
 fn main() {
@@ -11,6 +12,8 @@ fn main() {
     match args[1].as_str() {
         "sem-replay" => sem::replay(rest),
         "sem-stress" => sem::stress(rest),
+        "glob" => glob::run(rest),
+        "selector" => glob::selector(rest),
         other => {
             eprintln!("unknown command {other}");
             std::process::exit(2);
